@@ -72,6 +72,9 @@ pub enum MouseMode {
     PixelPosition,
 }
 
+/// Largest number of rows of a picture that is not a terminal buffer (SAUCE stores the height in 16 bits).
+pub const MAX_PICTURE_HEIGHT: i32 = 0xFFFF;
+
 impl TerminalState {
     pub fn from(size: impl Into<Size>) -> Self {
         let mut ret = Self {
@@ -192,6 +195,10 @@ impl TerminalState {
                 if buf.is_terminal_buffer {
                     let first = buf.get_first_visible_line();
                     caret.pos.y = caret.pos.y.clamp(first, first + self.get_height() - 1);
+                } else {
+                    // a picture that is being loaded or edited has no view, but its rows start at 0 and rows are
+                    // allocated up to the cursor: a cursor movement must not be able to ask for 2^31 of them
+                    caret.pos.y = caret.pos.y.clamp(0, MAX_PICTURE_HEIGHT - 1);
                 }
                 caret.pos.x = caret.pos.x.clamp(0, (self.get_width() - 1).max(0));
             }
